@@ -465,6 +465,7 @@ func c13Ranges(name string) (out []tableCase) {
 }
 
 func checkC13(c *mc.Ctx) {
+	checkSpecConstants(c, "tables", specConstsTables())
 	c.Ev.Level = "exploration"
 	c.Ev.Rule = "bounded-exhaustive table model space: per table type loop counts {0,1,2,3,fill to the section limit}, descriptor loops of 0..2 rotating kinds, every id/number field over {0, max, alternating, every single bit}, all table_id variants, all 32 versions with varying section numbers / current_next, flags; pointer fields; 1..3 sections per unit; each model is reference-encoded, demuxed by the real Demuxer and compared field for field; generic header fields and CRC through the parsePSIData hook; PAT/PMT written by the library compared byte for byte; distinct_nontrivial = distinct table models"
 	c.Ev.Assumptions = append(c.Ev.Assumptions, "descriptors inside tables come from a rotating pool of 8 kinds (descriptor space itself: C14)", "EIT start times within the MJD range of C15")
